@@ -266,9 +266,14 @@ func runSuite(s Suite, tier string, seed uint64, driver string) *Report {
 		Branches: map[string]int{}, Samples: []interface{}{}, Disagreements: []Disagreement{}, Violations: []Violation{}, Notes: []string{}}
 	c := &Ctx{Tier: tier, Seed: seed, Rng: NewRng(seed, s.Name), Driver: driver, rep: rep,
 		distinct: map[string]struct{}{}, maxViol: 50}
+	atomic.StoreInt32(&watchdogExpired, 0)
 	func() {
 		defer func() {
 			if r := recover(); r != nil {
+				if st, ok := r.(suiteStop); ok {
+					c.Note("%s", st.why)
+					return
+				}
 				c.Violate("harness-panic", fmt.Sprintf("suite panicked: %v", r), nil)
 			}
 		}()
@@ -302,11 +307,17 @@ func writeJSON(path string, v interface{}) error {
 // that does not return is a finding of its own ("hang"), never a reason for the harness to hang.
 var watchdogExpired int32
 
+type suiteStop struct{ why string }
+
 func watchdog(d time.Duration, f func()) bool {
 	// once three calls have not returned the run has its findings; further calls get less patience so
 	// that a defect that makes everything hang does not make the check run for hours
 	if atomic.LoadInt32(&watchdogExpired) >= 3 && d > 5*time.Second {
 		d = 5 * time.Second
+	}
+	// ... and after twelve the suite stops: what it has found is reported, the rest of its cases is not run
+	if atomic.LoadInt32(&watchdogExpired) >= 12 {
+		panic(suiteStop{"twelve calls into the library did not return: the suite stops here (its findings so far are reported)"})
 	}
 	done := make(chan struct{})
 	go func() {
